@@ -1,6 +1,6 @@
 SPECIFICATION Spec
 CONSTANTS
- Fam = "pow"
+ Fams = {"ip"}
  P <- PThorough
 INVARIANTS Theorems Emit
 CHECK_DEADLOCK FALSE
